@@ -164,7 +164,8 @@ def rand_mgs(rng):
                 a = sum(x * v for x, v in zip(xs, g))
             else:
                 a = rng.randint(1, total)           # arbitrary number: the hidden set need not generate it
-            if 0 < a <= total:
+            # with multiplicities a generated number may exceed the total (a068bcc)
+            if 0 < a <= (total if mult == 1 else 2 * total):
                 nums.append(a)
         if not nums:
             continue
